@@ -36,6 +36,7 @@ type Class struct {
 	Rn           []string // names of the results of the function under test (nil: unnamed); toerror: the bool included
 	TupleClash   []int    // fmape: the package also calls deriveTuple on values of these types (assignable to, not identical with, f's results)
 	IfaceParam   int      // compose: stage 0's first result has type 21 (*sqp), stage 1 receives it in a parameter of this INTERFACE type (17 / 11); 0 = none
+	SliceObs     bool     // tuple, fmape (>= 2 results): the identity of the []int values is observed (nil / empty / same backing array)
 	Import       string   // import path the package's own file needs (for the argument expression only)
 	ErrExpr      string   // toerror: Go source of the supplied error value (error number 0) when it is not errOf(…)
 	Twin         bool     // a SECOND call site of the same derive function: same types, parameter names in another order
@@ -155,6 +156,9 @@ func (c *Class) sigWire() string {
 	case "uncurry":
 		return wireParams("outer", c.Outer) + " " + wireParams("inner", c.Inner) + " " + wireTys("rs", c.Rs)
 	case "tuple":
+		if c.SliceObs {
+			return wireTys("ts", c.Ts) + " (sliceobs 1)"
+		}
 		return wireTys("ts", c.Ts)
 	case "compose":
 		var sb strings.Builder
@@ -170,6 +174,9 @@ func (c *Class) sigWire() string {
 	case "fmape", "traverse":
 		if len(c.TupleClash) > 0 {
 			return wireTys("in", []int{c.In}) + " " + wireTys("outs", c.Outs) + " (tupleclash 1)"
+		}
+		if c.SliceObs {
+			return wireTys("in", []int{c.In}) + " " + wireTys("outs", c.Outs) + " (sliceobs 1)"
 		}
 		return wireTys("in", []int{c.In}) + " " + wireTys("outs", c.Outs)
 	case "bind":
@@ -365,6 +372,41 @@ func obsVars(ts []int) string {
 		ss[i] = fmt.Sprintf("ob%d(r%d)", t, i)
 	}
 	return "[]int{" + strings.Join(ss, ", ") + "}"
+}
+
+// sliceMk / sliceObsVars / sliceFlagsExpr: the variants of mkResults / obsVars for classes that observe slice identity
+func sliceMk(ts []int, exprs []string) []string {
+	out := append([]string{}, exprs...)
+	for j, t := range ts {
+		if t == 9 {
+			out[j] = strings.Replace(out[j], "mk9(", "mkS(", 1)
+		}
+	}
+	return out
+}
+
+func sliceObsVars(ts []int) string {
+	ss := make([]string, len(ts))
+	for i, t := range ts {
+		if t == 9 {
+			ss[i] = fmt.Sprintf("obS(r%d)", i)
+		} else {
+			ss[i] = fmt.Sprintf("ob%d(r%d)", t, i)
+		}
+	}
+	return "[]int{" + strings.Join(ss, ", ") + "}"
+}
+
+func sliceFlagsExpr(ts []int) string {
+	var ss []string
+	k := 0
+	for i, t := range ts {
+		if t == 9 {
+			ss = append(ss, fmt.Sprintf("sliceFlag(r%d, %d)", i, k))
+			k++
+		}
+	}
+	return "\";a:\" + " + strings.Join(ss, " + ")
 }
 
 // assign prints `r0, r1 := <call>` or just `<call>` when there is nothing to bind.
@@ -568,6 +610,11 @@ func (c *Class) source() string {
 			w("func g(a []int)%s {\n\treturn %s\n}\n", goResults(c.Ts, ""), strings.Join(args, ", "))
 			build = "\tw := deriveTuple(g(a))\n"
 		}
+		if c.SliceObs {
+			build = fmt.Sprintf("\tMade, Empty = nil, len(in[\"empty\"]) == 1 && in[\"empty\"][0] != 0\n\tw := deriveTuple(%s)\n", strings.Join(sliceMk(c.Ts, args), ", "))
+			runFn(build, rvars(len(c.Ts)), "w()", "outcome("+sliceObsVars(c.Ts)+") + "+sliceFlagsExpr(c.Ts))
+			break
+		}
 		runFn(build, rvars(len(c.Ts)), "w()", "outcome("+obsVars(c.Ts)+")")
 	case "compose":
 		in := c.Ins
@@ -599,9 +646,18 @@ func (c *Class) source() string {
 		w("func G()%s {\n\ta := []int{}\n\tlogStage(0, a)\n\treturn mk%d(hh(0, 0, a)), %s\n}\n\n", goResults([]int{c.In}, c.errGo("result")), c.In, c.errRet(0, true))
 		w("func F(x0 %s)%s {\n\ta := %s\n\tlogStage(1, a)\n", Types[c.In].Go, goResults(c.Outs, ""), obsList([]int{c.In}, 0))
 		if len(c.Outs) > 0 {
-			w("\treturn %s\n", strings.Join(mkResults(c.Outs, "1"), ", "))
+			res := mkResults(c.Outs, "1")
+			if c.SliceObs {
+				res = sliceMk(c.Outs, res)
+			}
+			w("\treturn %s\n", strings.Join(res, ", "))
 		}
 		w("}\n")
+		if c.SliceObs {
+			runFn("\tMade, Empty = nil, len(in[\"empty\"]) == 1 && in[\"empty\"][0] != 0\n\tw, err := deriveFmap(F, G)\n\tif w == nil {\n\t\treturn \"p:\" + join(Log, \"|\") + \"#nil:\" + showErr(err)\n\t}\n",
+				rvars(len(c.Outs)), "w()", "outcomeE("+sliceObsVars(c.Outs)+", err) + "+sliceFlagsExpr(c.Outs))
+			break
+		}
 		switch len(c.Outs) {
 		case 0:
 			run("\terr := deriveFmap(F, G)\n\treturn outcomeE([]int{}, err)\n")
@@ -747,6 +803,16 @@ func (c *Class) Ops(rng *rand.Rand, cfg string, nargs int) []string {
 		for i := 0; i < nargs; i++ {
 			add(wireInts("args", payloads(rng, c.Ts)))
 		}
+		if c.SliceObs {
+			add(wireInts("args", payloads(rng, c.Ts)), "(empty 1)")
+			z := payloads(rng, c.Ts)
+			for j, t := range c.Ts {
+				if t == 9 {
+					z[j] = 0 // the nil slice
+				}
+			}
+			add(wireInts("args", z))
+		}
 	case "compose":
 		// every choice of the failing stage (or none) x both error values x argument vectors
 		for i := 0; i < 2; i++ {
@@ -769,6 +835,9 @@ func (c *Class) Ops(rng *rand.Rand, cfg string, nargs int) []string {
 			}
 		}
 	case "fmape":
+		if c.SliceObs {
+			add("(fail)", "(empty 1)")
+		}
 		add("(fail)")
 		add("(fail 0 0)")
 		add("(fail 0 1)")
